@@ -165,6 +165,7 @@ def break_ops(m: Mol, rnd):
     yield ("text-after-mixture", base + ".|10%| C", "parse")
     yield ("percentage-out-of-range", base + ".|120%|", "parse")
     yield ("percentage-out-of-range", base + ".|-3%|", "parse")
+    yield ("negative-mass", base + ".|-500|", "parse")
     # not generable: no distribution
     m2 = copy.deepcopy(m)
     [x for x in m2.elems if isinstance(x, Sto)][-1].dist = None
@@ -297,6 +298,16 @@ def run(tier):
     # (2b) systems with a component that cannot be generated (no distribution / negative weight), in every position: the system is not generable
     #      and both entry points refuse (whichever component a random pick would have drawn)
     good = ["CCO", "CC{[$][$]CC[$][$]}|gauss(50, 5)|CO"]
+    # a negative absolute mass in a system must not turn into "the remaining share"
+    for text in ("CC.|-500|CCO.|60%|", "CC.|60%|CCO.|-500|", "CC.|-500|"):
+        for sm in (None, 1000.0):
+            n_obj += 1
+            rules["negative-mass"] = rules.get("negative-mass", 0) + 1
+            try:
+                so = g.System(text, sm) if sm else g.System(text)
+                v.violation("C15:accepted:negative-mass:system", f"System({text!r}, {sm}) is accepted and reads {str(so)!r}", {"text": text})
+            except Exception:
+                pass
     bad = ["CC{[$][$]CC[$][$]}CN", "CC{[$][$|-2|]CC[$][$]}|gauss(50, 5)|CN"]
     for b in bad:
         for pos in range(3):
